@@ -11,12 +11,8 @@ from . import common, dom, sel as selmod, tlc
 _G = {}
 
 
-def _init(pool, opts):
-    warnings.simplefilter('ignore')
-    sv, bs4 = common.import_repo()
-    _G['sv'] = sv
-    _G['bs4'] = bs4
-    _G['opts'] = opts
+def _compile_pool(pool, opts):
+    sv = _G['sv']
     comp = []
     for entry in pool:
         if isinstance(entry, dict) and 'sel' in entry:
@@ -31,7 +27,16 @@ def _init(pool, opts):
             comp.append((css, nsmap, sv.compile(css, namespaces=nsmap) if not opts.get('module_level') else None, None))
         except Exception as e:  # a pool selector must compile: the grammar is the property's
             comp.append((css, nsmap, None, '%s: %s' % (type(e).__name__, str(e).split('\n')[0])))
-    _G['comp'] = comp
+    return comp
+
+
+def _init(pool, opts):
+    warnings.simplefilter('ignore')
+    sv, bs4 = common.import_repo()
+    _G['sv'] = sv
+    _G['bs4'] = bs4
+    _G['opts'] = opts
+    _G['comp'] = _compile_pool(pool, opts)
 
 
 def doc_brief(d):
@@ -68,6 +73,8 @@ def _work(chunk):
     for case in chunk:
         d = case['doc']
         res = case['res']
+        if 'pool' in case:          # the state carries its own pool
+            comp = _compile_pool(case['pool'], _G['opts'])
         container, nodes = dom.build(d, bs4)
         idmap = dom.ids_of(nodes)
         n = len(d['parent'])
@@ -122,7 +129,11 @@ class PoolReplay:
         self.max_report = max_report
 
     def on_line(self, val):
-        if 'pool' in val:
+        if self.mp is None and 'pool' in val and 'doc' in val:
+            self.pool_asts = []
+            ctx = mp.get_context('fork')
+            self.mp = ctx.Pool(self.procs, initializer=_init, initargs=([], self.opts))
+        if 'pool' in val and 'doc' not in val:
             self.pool_asts = val['pool']
             ctx = mp.get_context('fork')
             self.mp = ctx.Pool(self.procs, initializer=_init, initargs=(self.pool_asts, self.opts))
